@@ -45,6 +45,19 @@ try:
         os.remove(os.path.join(scratch, d))
     rc2, out2 = sh("go test -vet=off -count=1 -json ./pkg/... 2>&1 | grep -E '\"Action\":\"fail\"' | grep -o '\"Test\":\"[^\"]*\"' | sort -u", scratch)
     failed = set(re.findall(r'"Test":"([^"/]+)', out2))
+    # timing-sensitive tests fail now and then on a loaded machine: a test outside the known
+    # set counts only if it also fails when re-run alone (twice)
+    for tname in sorted(failed - KNOWN):
+        flaky = False
+        for _ in range(2):
+            rcx, _o = sh(f"go test -vet=off -count=1 -run '^{tname}$' ./pkg/... 2>&1 | tail -3", scratch)
+            rcy, oy = sh(f"go test -vet=off -count=1 -run '^{tname}$' ./pkg/... 2>&1 | grep -c '^FAIL'", scratch)
+            if oy.strip() == "0":
+                flaky = True
+                break
+        if flaky:
+            failed.discard(tname)
+            res.setdefault("flaky_on_rerun", []).append(tname)
     res["ran"].append({"cmd": "go test -vet=off -count=1 ./pkg/...  (demo removed)", "tree": "changed", "failed_tests": sorted(failed)})
     ok = rc0 == 0 and rcb == 0 and rc1 != 0 and failed <= KNOWN
     res["confirmed"] = ok
